@@ -126,7 +126,7 @@ def r16_2(ctx):
             for (adt, fld) in list(e.writes):
                 if adt == SPAN or (adt == TOK and fld in ("raw", "data", "reader")):
                     r.ob("bounded:foreign-writer:%s" % f.key, False, f.site, "%s writes %s.%s" % (f.key, adt, fld))
-    ctx.run_rule("R16.2", "bounded writes to raw.end", body, floor=28)
+    ctx.run_rule("R16.2", "bounded writes to raw.end", body, floor=18)
 
 
 def r16_3(ctx):
@@ -288,7 +288,7 @@ def r16_7(ctx):
                             v = ord(y[1]) if isinstance(y[1], str) and len(y[1]) == 1 else y[1]
                             if isinstance(v, int) and not isinstance(v, bool) and v > 127:
                                 r.ob("ascii-only:%s:compare" % f.name, False, f.loc(span_line(st["s"])), "byte compared with non-ASCII constant %r" % (y[1],))
-        r.ob("ascii-only:decisions", n >= 40, "", "%d decisions on input bytes examined" % n)
+        r.ob("ascii-only:decisions", n >= 25, "", "%d decisions on input bytes examined" % n)
     ctx.run_rule("R16.7", "decisions on input bytes are ASCII-only (spans never split a character)", body, floor=4)
 
 
@@ -298,7 +298,7 @@ def run(ctx):
     r16_2(ctx)
     r16_3(ctx)
     verdicts = {"budget": True}
-    c07.r07_1(ctx, verdicts, rid="R16.4", only=lambda s: s.fn.file.startswith("src/html/"), floor=96)
+    c07.r07_1(ctx, verdicts, rid="R16.4", only=lambda s: s.fn.file.startswith("src/html/"), floor=60)
     # R16.5 = recursion audit restricted to the tokenizer
     F = ctx.facts
 
